@@ -71,6 +71,10 @@ def jobs(tier):
 
 
 def requirements(tier):
+    return dict(_requirements(tier), **{"rt:orbit-asked-again-after-edit": 500})
+
+
+def _requirements(tier):
     k = 1 if tier == "quick" else 25
     return {
         "rt:cases": 6000 * k,
@@ -305,6 +309,24 @@ def run_roundtrip(ctx, job, idx, rng, st):
         ctx.expect(same and meta, "C12/orbit-differs-from-tle", w, "Tle.orbit() does not carry the parsed values")
     except Exception as exc:
         ctx.violation("C12/orbit-differs-from-tle", dict(w, exc=repr(exc)), f"reading the orbit raised {exc!r}")
+
+    # ---- B2: history: the orbit handed out is the caller's: edited, it does not show in what the same Tle gives next ----
+    if idx % 3 == 0:
+        try:
+            first = tle.orbit()
+            first[0] = float(first[0]) + 0.25
+            first[4] = float(first[4]) * 0.5 + 0.1
+            first.bstar = 0.123
+            first.name = "edited"
+            again = tle.orbit()
+            six2 = probe.arr(again)
+            same2 = (again is not first and np.array_equal(six2, np.array(tle.to_list(), dtype=float)) and again.bstar == tle.bstar
+                     and again.name == tle.name and str(Tle.from_orbit(again)) == str(Tle.from_orbit(orb)))
+            ctx.count("rt:orbit-asked-again-after-edit")
+            ctx.expect(same2, "C12/orbit-asked-again-carries-the-edits-of-the-first", dict(w, again=six2.tolist(), parsed=list(map(float, tle.to_list()))),
+                       "Tle.orbit() called again after the first orbit was edited in place does not carry the parsed values")
+        except Exception as exc:
+            ctx.violation("C12/orbit-asked-again-raises", dict(w, exc=repr(exc)), f"Tle.orbit() called a second time raised {exc!r}")
 
     # ---- C: write back ----
     try:
